@@ -278,7 +278,7 @@ class Resources:
                 max_data["time"] = (
                     resources.time
                     if max_data["time"] is None
-                    else max(max_data["time"], resources.time)
+                    else max(max_data["time"], resources.time, key=_wall_time_to_seconds)
                 )
             if resources.partition is not None:
                 max_data["partition"] = resources.partition
@@ -325,6 +325,14 @@ class Resources:
 
         """
         return {k: v for k, v in asdict(self).items() if v is not None}
+
+
+def _wall_time_to_seconds(time: str) -> int:
+    """Duration of a wall time string ``[[D:]H:]M:S`` in seconds."""
+    seconds = 0
+    for value, factor in zip(reversed(time.split(":")), (1, 60, 3600, 86400)):
+        seconds += int(value) * factor
+    return seconds
 
 
 def _delayed_resources_with_defaults(
